@@ -40,6 +40,10 @@ func cholesky(A ConstMatrix, L Matrix, s, t Scalar) (Matrix, Matrix, error) {
         L.At(i, j).Div(t, L.At(j, j))
       }
     }
+    // L might be a recycled matrix, clear upper triangular part
+    for j := i+1; j < n; j++ {
+      L.At(i, j).SetFloat64(0.0)
+    }
   }
   return L, nil, nil
 }
@@ -60,6 +64,10 @@ func cholesky_ldl(A ConstMatrix, L, D Matrix, s, t Scalar) (Matrix, Matrix, erro
       return nil, nil, fmt.Errorf("matrix is not positive definite")
     }
     L.At(j,j).SetFloat64(1.0)
+    // L might be a recycled matrix, clear upper triangular part
+    for k := j+1; k < n; k++ {
+      L.At(j,k).SetFloat64(0.0)
+    }
     // compute remaining entries
     for i := j+1; i < n; i++ {
       s.Reset()
@@ -102,6 +110,10 @@ func cholesky_ldl_forcepd(A ConstMatrix, L, D Matrix, s, t Scalar) (Matrix, Matr
   // loop over columns
   for j := 0; j < n; j++ {
     L.At(j,j).SetFloat64(1.0)
+    // L might be a recycled matrix, clear upper triangular part
+    for k := j+1; k < n; k++ {
+      L.At(j,k).SetFloat64(0.0)
+    }
     // compute c_jj (stored temporarily in d_j)
     s.Reset()
     for k := 0; k < j; k++ {
